@@ -288,27 +288,15 @@ Proof.
   split; [|auto].
   apply pipe_loop_ev in E. rewrite map_rev, enum_from_snd in E.
   apply Forall2_rev in E. rewrite rev_involutive in E.
-  rewrite <- (firstn_skipn (Z.to_nat (Z.max (seq_sub hd (ss_snd_una t)) 0)) (ss_segs t)) at 1.
+  rewrite <- (firstn_skipn (Z.to_nat (Z.min (Z.max (seq_sub hd (ss_snd_una t)) 0) (len_z (ss_segs t)))) (ss_segs t)) at 1.
   apply ev_app; [exact E|apply ev_refl].
 Qed.
 
-(* calc_pipe panics exactly when high_data lies beyond the end of the table *)
-Lemma calc_pipe_some t hr hd rtt now :
-  Z.max (seq_sub hd (ss_snd_una t)) 0 <= len_z (ss_segs t) ->
-  exists t' p rc, calc_pipe t hr hd rtt now = Some (t', p, rc).
+(* calc_pipe never panics (repair of D21: `take` is clamped to the table length) *)
+Lemma calc_pipe_some t hr hd rtt now : exists t' p rc, calc_pipe t hr hd rtt now = Some (t', p, rc).
 Proof.
-  intro H. unfold calc_pipe.
-  destruct (Z.ltb_spec (len_z (ss_segs t)) (Z.max (seq_sub hd (ss_snd_una t)) 0)); [lia|].
-  destruct (pipe_loop _ t hr _ now _) as [upd a]. eauto.
-Qed.
-
-Lemma calc_pipe_none t hr hd rtt now :
-  calc_pipe t hr hd rtt now = None <-> len_z (ss_segs t) < Z.max (seq_sub hd (ss_snd_una t)) 0.
-Proof.
-  unfold calc_pipe.
-  destruct (Z.ltb_spec (len_z (ss_segs t)) (Z.max (seq_sub hd (ss_snd_una t)) 0)) as [Hlt|Hge].
-  - split; auto.
-  - destruct (pipe_loop _ t hr _ now _) as [upd a]. split; [discriminate|lia].
+  pose proof (calc_pipe_total t hr hd rtt now) as H.
+  destruct (calc_pipe t hr hd rtt now) as [[[t' p] rc]|]; [eauto|congruence].
 Qed.
 
 Lemma update_nth_ev (f : seg -> seg) : (forall g, seg_ev g (f g)) ->
@@ -324,58 +312,6 @@ Proof.
   intro g. unfold seg_ev, seg_on_sent, seg_time_ok, seg_last_sent; cbn.
   repeat split; auto. intros _. destruct (sg_sent g); exact Hn.
 Qed.
-
-(* ------------------------------------------------------------------ the pipe-safety relation
-   x (a value of last_sent_seq_nr) never lies beyond the end of the table, whatever prefix of
-   the table an acknowledgement removes.  Stated with seq_sub AS COMPUTED: no assumption on the
-   wrap tolerance is made anywhere. *)
-Definition ps_for (x : Z) (t : segments) : Prop :=
-  forall d, 0 <= d <= len_z (ss_segs t) ->
-    seq_sub x (wadd16 (ss_snd_una t) (d mod M16)) <= len_z (ss_segs t) - d.
-
-Definition ps_for_b (x : Z) (t : segments) : bool :=
-  forallb (fun n => seq_sub x (wadd16 (ss_snd_una t) (Z.of_nat n mod M16)) <=? len_z (ss_segs t) - Z.of_nat n)
-          (seq 0 (S (length (ss_segs t)))).
-
-Lemma ps_for_b_ok x t : ps_for_b x t = true -> ps_for x t.
-Proof.
-  unfold ps_for_b, ps_for, len_z. intros H d Hd. rewrite forallb_forall in H.
-  specialize (H (Z.to_nat d)). rewrite Z2Nat.id in H by lia.
-  apply Z.leb_le. apply H. apply in_seq. lia.
-Qed.
-
-Lemma ps_for_b_complete x t : ps_for x t -> ps_for_b x t = true.
-Proof.
-  unfold ps_for_b, ps_for, len_z. intro H. apply forallb_forall. intros n Hn. apply in_seq in Hn.
-  apply Z.leb_le. apply H. lia.
-Qed.
-
-Lemma ps_calc_pipe x t hr rtt now :
-  seg_inv t -> ps_for x t -> exists t' p rc, calc_pipe t hr x rtt now = Some (t', p, rc).
-Proof.
-  intros (_ & _ & _ & _ & Hu) H. apply calc_pipe_some.
-  specialize (H 0). unfold len_z in *.
-  replace (wadd16 (ss_snd_una t) (0 mod M16)) with (ss_snd_una t) in H
-    by (unfold wadd16, M16 in *; rewrite Z.mod_0_l by lia; rewrite Z.add_0_r, Z.mod_small; lia).
-  lia.
-Qed.
-
-Lemma ps_remove x t now ack sk t' r :
-  ps_for x t -> remove_up_to_ack t now ack sk = (t', r) -> ps_for x t'.
-Proof.
-  intros H Hr. destruct (remove_up_to_ack_struct _ _ _ _ _ _ Hr) as (a & b & d0 & E & Hev & Hk & Hu).
-  pose proof (ev_length _ _ Hev) as Hl. rewrite app_length in Hl.
-  assert (HL : len_z (ss_segs t) = ar_acked_segments r + len_z (ss_segs t')).
-  { unfold len_z. rewrite E, app_length. lia. }
-  intros d Hd. rewrite Hu.
-  assert (Hk0 : 0 <= ar_acked_segments r) by lia.
-  rewrite wadd16_wadd16.
-  specialize (H (ar_acked_segments r + d)). lia.
-Qed.
-
-Lemma ps_ev x t t' :
-  ps_for x t -> length (ss_segs t') = length (ss_segs t) -> ss_snd_una t' = ss_snd_una t -> ps_for x t'.
-Proof. unfold ps_for, len_z. intros H Hl Hu d Hd. rewrite Hl, Hu in *. apply H. exact Hd. Qed.
 
 (* ------------------------------------------------------------------ connection level *)
 Section PollAux.
